@@ -207,7 +207,15 @@ func (p *plan) pathTextFor(rng *rand.Rand, v pathVar, idx int) (string, error) {
 		}
 		return pathStrVals[rng.Intn(len(pathStrVals))]
 	}
-	single := len(v.pat) == 1 && v.pat[0].Kind == tmplref.Star
+	single := isSingleStar(v.pat)
+	if isLiteralOnly(v.pat) {
+		// a constant variable such as {kind=books}: the only text it captures
+		var segs []string
+		for _, s := range v.pat {
+			segs = append(segs, s.Text)
+		}
+		return strings.Join(segs, "/"), nil
+	}
 	if !single {
 		if fd.Kind() != protoreflect.StringKind {
 			return "", fmt.Errorf("multi-segment pattern on non-string field %s", v.field)
@@ -260,6 +268,17 @@ func (p *plan) pathTextFor(rng *rand.Rand, v pathVar, idx int) (string, error) {
 		}
 	}
 	return "", fmt.Errorf("no path-safe canonical text for %s", v.field)
+}
+
+func isSingleStar(pat []tmplref.Seg) bool { return len(pat) == 1 && pat[0].Kind == tmplref.Star }
+
+func isLiteralOnly(pat []tmplref.Seg) bool {
+	for _, s := range pat {
+		if s.Kind != tmplref.Lit {
+			return false
+		}
+	}
+	return len(pat) > 0
 }
 
 // fit gives every path-bound field of M a path-expressible value and returns
